@@ -29,7 +29,7 @@ def describe(e):
     if not isinstance(e, claripy.ast.Base):
         return repr(e)
     return [e.op, [describe(a) for a in e.args], getattr(e, "length", None), sorted(e.variables), bool(e.symbolic),
-            sorted(repr(a) for a in e.annotations)]
+            [repr(a) for a in e.annotations]]
 
 
 def battery(s, names):
